@@ -108,6 +108,28 @@ SolArrayOk(c, n, p, a) ==
     /\ \A j \in 1..n : \A q \in 1..NProbes(c) :
          (p.sol[q].raised = "" /\ Len(p.sol[q].v) = n) => a.v[j][q] = p.sol[q].v[j]
 
+\* sol AT the reported times (PyLayer SolSegContract: at an accepted step end the step the Rust Solution::sol uses answers):
+\* scalar calls sol(t[q]) and one array call sol(t), token for token equal to Solution::sol(t[q]) wherever the Rust API answers
+SolStepsScalarOk(c, n, m, r, p) ==
+  (c.dense /\ c.probe_steps) =>
+    /\ Len(p.sol_steps) = m /\ Len(r.sol_steps) = m
+    /\ \A q \in 1..m :
+         /\ p.sol_steps[q].raised = ""
+         /\ p.sol_steps[q].shape = <<n>>
+         /\ (r.sol_steps[q].inside => p.sol_steps[q].v = r.sol_steps[q].v)
+SolStepsArrayOk(c, n, m, r, p) ==
+  (c.dense /\ c.probe_steps /\ m >= 1) =>
+    /\ p.sol_steps_nd.raised = ""
+    /\ p.sol_steps_nd.shape = <<n, m>>
+    /\ IsGrid(p.sol_steps_nd.v, n, m)
+    /\ \A q \in 1..m : r.sol_steps[q].inside => \A j \in 1..n : p.sol_steps_nd.v[j][q] = r.sol_steps[q].v[j]
+StepsBad(c, n, m, r, p) ==
+  IF Len(p.sol_steps) # m \/ Len(r.sol_steps) # m THEN <<"lengths", Len(p.sol_steps), Len(r.sol_steps), m>>
+  ELSE LET bad == {q \in 1..m : p.sol_steps[q].raised # "" \/ (r.sol_steps[q].inside /\ p.sol_steps[q].v # r.sol_steps[q].v)}
+       IN IF bad = {} THEN <<"array call", p.sol_steps_nd.shape, p.sol_steps_nd.raised>>
+          ELSE LET q == CHOOSE q \in bad : \A z \in bad : q <= z
+               IN <<"scalar call", Cardinality(bad), m, q, p.sol_steps[q].t, p.sol_steps[q].v, r.sol_steps[q].v>>
+
 \* args reach fun, events and jac: each saw exactly the tuple that was passed
 ArgsOk(c, p) ==
   c.use_args =>
@@ -153,6 +175,8 @@ Clauses(x) ==
      <<"sol", SolPresenceOk(c, p) => SolScalarOk(c, n, r, p), [rust |-> r.sol, py |-> p.sol]>>,
      <<"solshape", (SolPresenceOk(c, p) /\ SolScalarOk(c, n, r, p)) => (SolArrayOk(c, n, p, p.sol_list) /\ SolArrayOk(c, n, p, p.sol_nd)),
        [want |-> <<n, NProbes(c)>>, list_shape |-> p.sol_list.shape, nd_shape |-> p.sol_nd.shape, list_raised |-> p.sol_list.raised]>>,
+     <<"sol-steps", SolPresenceOk(c, p) => (SolStepsScalarOk(c, n, m, r, p) /\ SolStepsArrayOk(c, n, m, r, p)),
+       [mismatching_of_m_first |-> StepsBad(c, n, m, r, p)]>>,
      <<"solshape-k0", (c.probe_empty /\ p.has_sol /\ StrictEmpty) => (p.sol_empty.raised = "" /\ p.sol_empty.shape = <<n, 0>>),
        [want |-> <<n, 0>>, got |-> p.sol_empty]>>,
      <<"args", ArgsOk(c, p), [want |-> c.params, fun |-> p.fun_args, ev |-> p.ev_args, jac |-> p.jac_args]>> >>
@@ -178,6 +202,7 @@ CheckBoth(x) ==
            => Drift("sparse-calls", x, [py |-> p.calls, rust |-> r.calls, njev |-> r.njev, ngroups |-> c.pat.ngroups])
      /\ (~StrictEmpty /\ r.m = 0 /\ p.y.shape # <<c.n, 0>>) => Drift("empty-shape", x, p.y.shape)
      \* coverage notes (which contract antecedents the real traces exercised)
+     /\ ((c.dense /\ c.probe_steps /\ r.m >= 3 /\ ~c.has_t_eval) => Note("sol-at-step-ends", x))
      /\ ((c.has_sparsity /\ c.jac # "none") => Note("jac-with-pattern", x))
      /\ ((c.has_sparsity /\ c.jac = "none" /\ p.calls # r.calls) => Note("pattern-changed-evaluation-count", x))
      /\ (r.status # "Success" => Note(r.status, x))
@@ -190,7 +215,13 @@ CheckPair(x) ==
   ELSE IF x.c.doc THEN Viol("raises", x, [rust_ok |-> r.ok, rust |-> r.msg, py_ok |-> p.ok, py_exc |-> p.exc, py_msg |-> p.msg])
   ELSE Drift("undocumented-option", x, [rust_ok |-> r.ok, py_ok |-> p.ok, py_exc |-> p.exc])
 
+\* scenario adequacy of the jac-return-container cases: the sparse containers the callable jac returned stored at least two
+\* different patterns during the run (otherwise entries left over from an earlier call could not show)
+PatternChangeSeen(x) == (x.c.want_pattern_change /\ x.p.ok) => x.p.jac_patterns >= 2
+
 CheckLine(x) ==
+  /\ PatternChangeSeen(x) \/ PrintT(<<"INADEQUATE", "C20", x.id, "jac stored pattern never changed", x.p.jac_patterns>>)
+  /\ (x.c.want_pattern_change /\ x.p.ok) => Note("jac-sparse-return-pattern-changed", x)
   /\ IF Adequate(x.r) THEN (Len(x.r.census) = 0 \/ Note("evlist-both-directions", x))
                       ELSE PrintT(<<"INADEQUATE", "C20", x.id, x.r.census>>)
   /\ CheckPair(x)
